@@ -634,7 +634,8 @@ LEVEL_TEXT = ('Machine-checked proof (Coq 8.16.1) over a model of Pony\'s JSON /
               'list length after a path; JSON truthiness by the textual NOT IN list equals Python truthiness (float zeros as json.dumps writes them included); array index and slice on '
               'SQLite equal Python indexing / slicing for every index and bound; the bind-parameter key of a parameterised path determines the path (so sharing parameters between '
               'several paths of one query is sound); equality of two int items via their texts is exact; the PostgreSQL array path and jsonb truthiness are right under the documented '
-              'semantics. The remaining deviations (key quoting, len of dict / str, CAST-based ==, text ordering of two items, TypeError escaping the fallback) are refuted by witnesses and '
+              'semantics, and the text[] literal written for PostgreSQL\'s #> operator is read back as the path steps under the documented array-literal syntax (C29_pg_path_except_known; '
+              'two recorded PostgreSQL findings: the key null written unquoted, a backslash inside a key not escaped). The remaining deviations (key quoting, len of dict / str, CAST-based ==, text ordering of two items, TypeError escaping the fallback) are refuted by witnesses and '
               'recorded as findings.')
 LEVEL_NOTE = ('Partial: the model is hand-written (tied by vm_compute correspondence with the real functions and index ASTs, and by real queries on SQLite with JSON1 and with the '
               'fallback forced); JSON comparison operators, wildcards, JSON_CONCAT and PostgreSQL JSON functions are not modelled (PostgreSQL only as path text); \\w beyond ASCII is an oracle.')
